@@ -10,7 +10,7 @@ theorem bGet_extend (b : List Bool) (i j : Nat) : bGet (bExtend b i) j = bGet b 
     · have h' : b.length ≤ j := Nat.le_of_not_lt h
       simp only [List.getD, List.getElem?_append_right h']
       rw [List.getElem?_eq_none (l := b) h']
-      cases hh : (List.replicate ((i / 8 + 1) * 8 - b.length) false)[j - b.length]? with
+      cases hh : (List.replicate (i + 1 - b.length) false)[j - b.length]? with
       | none => rfl
       | some v =>
         have := List.mem_of_getElem? hh
